@@ -187,6 +187,70 @@ class Entropy:
         return False
 
 
+class SimClock:
+    """The simulator's clock and process id.  The library reads neither today (probe
+    `sim_clock_reads` is expected to stay 0); a change that starts to - e.g. ids built from
+    time and pid - meets a clock that ticks 1 ms per read, can be set back (a restarted
+    process, clock skew) and a pid that every restarted process gets again."""
+
+    current = None
+    NAMES = ("time", "time_ns", "monotonic", "monotonic_ns", "perf_counter", "perf_counter_ns")
+
+    def __init__(self, start_ns=1_700_000_000_000_000_000):
+        self.start = start_ns
+        self.now = start_ns
+        self.reads = 0
+        self.pid_reads = 0
+        self._saved = {}
+
+    def _tick(self):
+        self.reads += 1
+        self.now += 1_000_000
+        return self.now
+
+    def jump_back(self):
+        self.now = self.start
+
+    def __enter__(self):
+        import time as _time
+
+        for n in self.NAMES:
+            self._saved[n] = getattr(_time, n)
+        _time.time = lambda: self._tick() / 1e9
+        _time.time_ns = lambda: self._tick()
+        _time.monotonic = lambda: (self._tick() - self.start) / 1e9
+        _time.monotonic_ns = lambda: self._tick() - self.start
+        _time.perf_counter = lambda: (self._tick() - self.start) / 1e9
+        _time.perf_counter_ns = lambda: self._tick() - self.start
+        self._saved["getpid"] = os.getpid
+        real_pid = os.getpid
+
+        def getpid():
+            import sys as _sys
+
+            f = _sys._getframe(1)
+            # only callers inside the library (or the stdlib modules it calls for ids) see the
+            # simulated pid; the harness itself keeps the real one
+            fn = f.f_code.co_filename
+            if fn.startswith(pkg_dir()) or fn.endswith(("uuid.py", "random.py")):
+                self.pid_reads += 1
+                return 4242
+            return real_pid()
+
+        os.getpid = getpid
+        SimClock.current = self
+        return self
+
+    def __exit__(self, *a):
+        import time as _time
+
+        for n in self.NAMES:
+            setattr(_time, n, self._saved[n])
+        os.getpid = self._saved["getpid"]
+        SimClock.current = None
+        return False
+
+
 # ------------------------------------------------------------------ value encoding
 
 
